@@ -34,8 +34,12 @@ Definition bump (idx : list (N * N)) (id c : N) : list (N * N) := drop idx id ++
 Definition is_some {A} (o : option A) : bool := match o with Some _ => true | None => false end.
 Definition null {A} (l : list A) : bool := match l with [] => true | _ => false end.
 
-(* one event of the feed snapshot: the document, its CAS and whether it was a tombstone when the snapshot was taken *)
-Record event := mkEv { e_id : N; e_cas : N; e_tomb : bool }.
+(* one event of the feed snapshot: the document, its CAS, and whether ResyncDocument's update callback -- which is
+   first invoked on the COPY of the document carried by the event -- cancels on that copy (a tombstone: empty body;
+   a live document for which getResyncedDocument finds nothing to change).  A cancelled first invocation ends the
+   visit without looking at the stored document; otherwise the write is CAS-guarded, and when the stored document
+   has changed since the snapshot the callback runs again on the stored document. *)
+Record event := mkEv { e_id : N; e_cas : N; e_skip : bool }.
 
 Fixpoint qget (q : list (N * list event)) (c : N) : list event :=
   match q with [] => [] | (c', l) :: r => if c' =? c then l else qget r c end.
@@ -75,10 +79,10 @@ Section Run.
   Definition fn (id : N) : body -> verdict := syncs (col_of id).
 
   (* ---------------------------------------------------------------- the feed snapshot *)
-  Definition tomb_at (docs : list doc) (id : N) : bool :=
-    forallb (fun d => negb (d_id d =? id) || tombstoned d) docs.
-  Definition snapshot (c ckpt : N) (docs : list doc) (idx : list (N * N)) : list event :=
-    flat_map (fun p => if (col_of (fst p) =? c) && (ckpt <? snd p) then [mkEv (fst p) (snd p) (tomb_at docs (fst p))] else []) idx.
+  Definition skip_at (regen : bool) (docs : list doc) (id : N) : bool :=
+    forallb (fun d => negb (d_id d =? id) || negb (is_some (resync_doc (fn id) fixed regen 0 d))) docs.
+  Definition snapshot (c ckpt : N) (regen : bool) (docs : list doc) (idx : list (N * N)) : list event :=
+    flat_map (fun p => if (col_of (fst p) =? c) && (ckpt <? snd p) then [mkEv (fst p) (snd p) (skip_at regen docs (fst p))] else []) idx.
 
   (* ---------------------------------------------------------------- a document write (under the current function) *)
   Definition wrote (docs : list doc) (w : wop) : bool :=
@@ -108,7 +112,7 @@ Section Run.
           mkR (r_docs st) (r_idx st) (r_clock st)
               MRunning cs pc ck (if resume then r_rid st else r_rid st + 1)
               regen (r_hasall st || null cols)
-              (map (fun c => (c, snapshot c (lookup ck c) (r_docs st) (r_idx st))) cs) ck pc
+              (map (fun c => (c, snapshot c (lookup ck c) regen (r_docs st) (r_idx st))) cs) ck pc
               (r_ps st) (r_pseq st) (r_log st) (r_sel st ++ cs) (r_dirty st) (r_alloc st)
     end.
 
@@ -126,7 +130,7 @@ Section Run.
         | e :: q' =>
             let queue' := qset (r_queue st) c q' in
             let last' := upd (r_last st) c (e_cas e) in
-            if e_tomb e then
+            if e_skip e then
               mkR (r_docs st) (r_idx st) (r_clock st) (r_state st) (r_cols st) (r_pchanged st) (r_pckpt st) (r_rid st)
                   (r_regen st) (r_hasall st) queue' last' (r_changed st) (r_ps st) (r_pseq st) (r_log st) (r_sel st) (r_dirty st) (r_alloc st)
             else
@@ -218,5 +222,5 @@ Arguments OWrite {body}. Arguments OStart {body}. Arguments OVisit {body}. Argum
 Arguments OFinish {body}. Arguments OLoad {body}.
 Arguments rstep {body}. Arguments rrun {body}. Arguments rinit {body}. Arguments do_write {body}. Arguments do_start {body}.
 Arguments do_visit {body}. Arguments do_stop {body}. Arguments do_crash {body}. Arguments do_finish {body}. Arguments do_load {body}.
-Arguments snapshot {body}. Arguments tomb_at {body}. Arguments wrote {body}. Arguments visit_docs {body}. Arguments visit_wrote {body}.
+Arguments snapshot {body}. Arguments skip_at {body}. Arguments wrote {body}. Arguments visit_docs {body}. Arguments visit_wrote {body}.
 Arguments idx_from {body}. Arguments fn {body}.
